@@ -248,11 +248,11 @@ def plan(pid, tier):
     P = {}
     P['C01'] = lambda: (rc_jobs('h_codec', 'c01', 12, 3000 if q else 40000) + rc_jobs('h_codec', 'c01', 2, 300 if q else 6000, variant='asan-nosse')
                         + sweep_jobs('h_codec', 'c01_xor_sweep', 2 if q else 4) + sweep_jobs('h_codec', 'c01_rs_sweep', 1)
-                        + sweep_jobs('h_codec', 'c01_isa_sweep', 1))
+                        + sweep_jobs('h_codec', 'c01_isa_sweep', 1) + sweep_jobs('h_codec', 'c01_large', 3))
     P['C02'] = lambda: (rc_jobs('h_codec', 'c02', 10, 800 if q else 30000) + sweep_jobs('h_codec', 'c02_subsets', 4 if q else 8)
-                        + sweep_jobs('h_codec', 'c02_band', 2 if q else 6))
+                        + sweep_jobs('h_codec', 'c02_band', 2 if q else 6) + sweep_jobs('h_codec', 'c02_large', 3))
     P['C03'] = lambda: (rc_jobs('h_codec', 'c03', 12, 3000 if q else 40000) + sweep_jobs('h_codec', 'c03_xor_sweep', 3 if q else 12)
-                        + sweep_jobs('h_codec', 'c03_rs_sweep', 1))
+                        + sweep_jobs('h_codec', 'c03_rs_sweep', 1) + sweep_jobs('h_codec', 'c03_large', 3))
     P['C04'] = lambda: (sweep_jobs('h_format', 'selftest', 1) + sweep_jobs('h_format', 'c04_matrix', 12) + rc_jobs('h_format', 'c04_parity', 4, 2500 if q else 30000)
                         + rc_jobs('h_format', 'c04_parity_mt', 3, 120 if q else 2500))
     P['C05'] = lambda: (sweep_jobs('h_format', 'selftest', 1) + sweep_jobs('h_format', 'c05_tables', 1) + sweep_jobs('h_format', 'c05_encode', 2) + sweep_jobs('h_format', 'c05_encode', 1, variant='asan-nosse')
@@ -429,7 +429,7 @@ MODE_HARNESS['c18_sched'] = ('h_sched', 'asan')
 MODE_HARNESS['c18_sched_exhaustive'] = ('h_sched', 'asan')
 for _m in ['c07', 'c07_sweep', 'c08', 'c08_sweep', 'c04_matrix', 'c04_parity', 'c04_parity_mt', 'selftest', 'c05_tables', 'c05_encode', 'c05_unsupported']:
     MODE_HARNESS[_m] = ('h_format', 'asan')
-for _m in ['c05_mt', 'c19', 'c19_sweep', 'c19_inv', 'c19_singular', 'c05_decode_sweep', 'c01', 'c01_xor_sweep', 'c01_rs_sweep', 'c01_isa_sweep', 'c02', 'c02_subsets', 'c02_band', 'c03', 'c03_xor_sweep', 'c03_rs_sweep', 'c20']:
+for _m in ['c01_large', 'c02_large', 'c03_large', 'c05_mt', 'c19', 'c19_sweep', 'c19_inv', 'c19_singular', 'c05_decode_sweep', 'c01', 'c01_xor_sweep', 'c01_rs_sweep', 'c01_isa_sweep', 'c02', 'c02_subsets', 'c02_band', 'c03', 'c03_xor_sweep', 'c03_rs_sweep', 'c20']:
     MODE_HARNESS[_m] = ('h_codec', 'asan')
 
 
